@@ -492,7 +492,7 @@ class C17(object):
     id = "C17"
     engine = "histsim"
     time_keys = {"operations": "operations applied to the system and the model"}
-    fault_keys = ["operations_that_raised", "invalid_arguments_injected"]
+    fault_keys = ["operations_that_raised", "invalid_arguments_injected", "caller_thread_runs", "py_switches"]
     tiers = {"quick": {"runs": 40000, "budget_s": 60, "selftest_every": 100, "fresh_selftest": 10},
              "thorough": {"runs": 9000000, "budget_s": 800, "selftest_every": 1000, "fresh_selftest": 20}}
     rule = ("one run = one history: initial columnfile (empty | dict-built | text-file-loaded | HDF-loaded) followed by "
@@ -515,6 +515,18 @@ class C17(object):
 
     def gen(self, rs, ctx):
         rnd = random.Random(rs)
+        if rnd.random() < 0.004:
+            # 2-3 Python threads (seeded scheduler, pre-emption at the source lines of columnfile.py), each applying row operations
+            # to a table OF ITS OWN (the per-grain worker pattern); tables of a realistic size
+            nthr = rnd.choice([2, 2, 3])
+            same_rows = rnd.random() < 0.6
+            nr0 = rnd.choice([9000, 12000, 20000])
+            return {"entry": "columnfile-threads", "seed": rnd.getrandbits(32),
+                    "tables": [{"ncols": rnd.randint(2, 9), "nrows": nr0 if same_rows else rnd.choice([50, 9000, 17000]),
+                                "ops": [rnd.choice(["filter", "filter", "removerows", "sortby", "reorder", "copyrows", "copy"])
+                                        for _ in range(rnd.randint(1, 3))], "keep": rnd.choice([0.5, 0.5, 0.25])} for _ in range(nthr)],
+                    "strategy": rnd.choice(["random", "random", "pct", "rr"]), "p_inv": rnd.choice([1, 2, 4, 8]),
+                    "quantum": rnd.choice([1, 2, 5]), "pct_d": rnd.choice([1, 2, 3]), "sseed": rnd.getrandbits(48)}
         kind = rnd.choice(["empty", "dict", "dict", "text", "hdf"])
         ncols = rnd.randint(1, 4)
         nrows = rnd.randint(1, 10)
@@ -524,9 +536,133 @@ class C17(object):
         return {"entry": "columnfile-history", "init": {"kind": kind, "cols": cols}, "ops": gen_ops(rnd, nops)}
 
     def describe(self, desc):
+        if desc["entry"] == "columnfile-threads":
+            return dict(desc)
         return {"init": desc["init"], "ops": desc["ops"][:12], "n_ops": len(desc["ops"])}
 
+    def exec_threads(self, desc, ctx):
+        from pysched import pysched
+        cfm = self.cfm
+        g = np.random.default_rng(desc["seed"])
+        jobs = []
+        for t, tb in enumerate(desc["tables"]):
+            nr, nc = tb["nrows"], tb["ncols"]
+            # distinct values everywhere: column c of thread t holds t*1e7 + c*1e5 + a permutation of the row numbers
+            cols = {NAMES[c]: (t * 1e7 + c * 1e5 + g.permutation(nr)).astype(float) for c in range(nc)}
+            args = []
+            nrr = nr
+            for op in tb["ops"]:
+                if op == "filter":
+                    msk = np.zeros(nrr, bool)
+                    msk[:int(nrr * tb["keep"])] = True      # the same number of rows survives in every thread's table
+                    g.shuffle(msk)
+                    args.append(msk)
+                    nrr = int(msk.sum())
+                elif op == "removerows":
+                    args.append(NAMES[int(g.integers(0, nc))])
+                    # values to remove are decided when the operation runs (they depend on the rows left)
+                    nrr -= len(range(0, nrr, 3))
+                elif op == "sortby":
+                    args.append(NAMES[int(g.integers(0, nc))])
+                elif op == "reorder":
+                    args.append(g.permutation(nrr))
+                elif op == "copyrows":
+                    args.append(np.sort(g.choice(nrr, size=max(1, nrr // 2), replace=False)))
+                    nrr = len(args[-1])
+                else:
+                    args.append(None)
+            jobs.append((cols, tb["ops"], args))
+
+        def model(cols, ops, args):
+            cur = {k: v.copy() for k, v in cols.items()}
+            for op, a in zip(ops, args):
+                if op == "filter":
+                    cur = {k: v[a] for k, v in cur.items()}
+                elif op == "removerows":
+                    vals = np.sort(cur[a])[::3]
+                    keep = ~np.isin(cur[a], vals)
+                    cur = {k: v[keep] for k, v in cur.items()}
+                elif op == "sortby":
+                    o = np.argsort(cur[a])
+                    cur = {k: v[o] for k, v in cur.items()}
+                elif op in ("reorder", "copyrows"):
+                    cur = {k: v[a] for k, v in cur.items()}
+            return cur
+
+        def run_ops(cf, ops, args):
+            for op, a in zip(ops, args):
+                if op == "filter":
+                    cf.filter(a)
+                elif op == "removerows":
+                    cf.removerows(a, list(np.sort(cf.getcolumn(a))[::3]))
+                elif op == "sortby":
+                    cf.sortby(a)
+                elif op == "reorder":
+                    cf.reorder(a)
+                elif op == "copyrows":
+                    cf = cf.copyrows(a)
+                else:
+                    cf = cf.copy()
+            return cf
+        want = [model(*j) for j in jobs]
+        tabs = [cfm.colfile_from_dict({k: v.copy() for k, v in j[0].items()}) for j in jobs]
+        results = [None] * len(jobs)
+        sched = pysched.Sched(desc["sseed"], strategy=desc["strategy"], p_inv=desc["p_inv"], quantum=desc["quantum"], pct_d=desc["pct_d"],
+                              pct_est=200 * len(jobs), step_cap=2000000, trace_files=[cfm.__file__], replay=desc.get("replay"))
+
+        def worker(t):
+            results[t] = run_ops(tabs[t], jobs[t][1], jobs[t][2])
+
+        def main():
+            ths = [sched.spawn(lambda t=t: worker(t), "py%d" % t) for t in range(len(jobs))]
+            for th in ths:
+                sched.join(th)
+            return ths
+        viol, ths = None, []
+
+        def V(cls, detail):
+            return {"class": cls, "key": "columnfile-threads:" + cls, "detail": detail}
+        try:
+            with contextlib.redirect_stdout(io.StringIO()):
+                ths = sched.run(main) or []
+        except pysched.Deadlock as e:
+            viol = V("deadlock", str(e))
+        except pysched.StepCap as e:
+            viol = V("no-progress", str(e))
+        for t, th in enumerate(ths):
+            if viol is None and getattr(th, "exc", None) is not None:
+                if runner.is_harness_exception(th.exc):
+                    raise th.exc
+                viol = V("raises", "thread %d of %d, working on a table of its own (ops %s): %s: %s" %
+                         (t, len(jobs), jobs[t][1], type(th.exc).__name__, th.exc))
+        for t in range(len(jobs)):
+            if viol is not None:
+                break
+            cf = results[t]
+            w = want[t]
+            nw = len(next(iter(w.values())))
+            if cf is None or cf.nrows != nw or list(cf.titles) != list(w.keys()):
+                viol = V("not-rectangular", "thread %d of %d (ops %s): the table has nrows=%s and titles %s, expected %d rows" %
+                         (t, len(jobs), jobs[t][1], getattr(cf, "nrows", None), getattr(cf, "titles", None), nw))
+                break
+            for k in w:
+                got = np.asarray(cf.getcolumn(k))
+                if got.shape != w[k].shape or not np.array_equal(got, w[k]) or not np.array_equal(np.asarray(getattr(cf, k)), w[k]):
+                    viol = V("row-op-not-uniform", "%d Python threads, each on a table of its own: after %s column %s of thread %d's table "
+                                                   "(%d entries, nrows %d) is not the selection of its own rows" %
+                             (len(jobs), jobs[t][1], k, t, got.size, cf.nrows))
+                    break
+        opn = collections.Counter(op for j in jobs for op in j[1])
+        meas = {"operations": sum(len(j[1]) for j in jobs), "ops": dict(opn), "operations_that_raised": 0, "invalid_arguments_injected": 0,
+                "caller_thread_runs": 1, "py_steps": sched.steps, "py_switches": sched.switches}
+        sig = enginea.sha(desc["seed"], sched.sched_sig())
+        return {"digest": enginea.sha(sched.digest(), [sorted((k, enginea.sha(np.asarray(r.getcolumn(k)))) for k in r.titles) if r is not None else None
+                                                      for r in results]),
+                "sig": sig, "nontrivial": True, "viol": viol, "measures": meas}
+
     def execute(self, desc, ctx):
+        if desc["entry"] == "columnfile-threads":
+            return self.exec_threads(desc, ctx)
         m = Machine(self.cfm, ctx.scratch)
         viol = None
         done = 0
@@ -549,6 +685,8 @@ class C17(object):
                 "nontrivial": len(m.states) >= 3, "viol": viol, "measures": meas}
 
     def minimise(self, desc, viol, ctx):
+        if desc["entry"] == "columnfile-threads":
+            return desc
         cls = viol["class"]
 
         def test(ops):
